@@ -5,7 +5,7 @@ From Settlus Require Import Base.Prelude Base.Hex Base.Dec Oracle.Arith Settleme
 
 Definition snap_of_init (c : cstate) : snap :=
   mkSnap (c_h c) (c_s c) None (o_prevotes (c_o c)) (o_votes (c_o c)) (o_deleg (c_o c)) (o_miss (c_o c))
-         (o_vals (c_o c)) (o_pool (c_o c)) [] [] true.
+         (o_vals (c_o c)) (o_pool (c_o c)) [] [] [] [] true.
 
 (* generic walk: [f k height prev block_events sn] is called at every end-block that has a snapshot,
    with the events of that block (begin .. end) *)
@@ -341,3 +341,119 @@ Definition check_C12 := failing (fun c => codes_in 31 39 (settle_check c) ++ cod
 Definition check_C09 := failing (fun c => codes_in 41 49 (settle_check c)).
 Definition check_C11 := failing (fun c => codes_in 51 59 (settle_check c) ++ codes_in 11 11 (settle_check c)).
 Definition check_settle := failing settle_check.
+
+(* ---------- oracle family: C05 C08 C10 C14 ----------
+   Ballots are rebuilt from the implementation's own accept / reject decisions; validators come from
+   its own snapshots.  Codes:
+     61 the set of records filled at a tally differs from: no recipients, created before the tallied round,
+        owner accepted by threshold power of the distinct active validators that revealed it
+     62 a filled record does not hold [(accepted owner, 1)]     63 recipients filled outside a tally block
+     64 recipients that were already set were changed
+     71 prevotes or votes are left after the tally block        72 stored round info is not the round of the next height
+     73 prevote accepted with a wrong round id or after the prevote window
+     74 vote accepted with a wrong round id, or not opening the validator's latest unopened prevote of this round
+     90 a registered crisis invariant is broken                  91 credited total <> validators' credits + community pool credit
+     92 credits of an end-block are not a whole number of coins (the module account cannot cover them) *)
+Record otrack := mkOT { ot_prevotes : list (Z * bytes); ot_votes : list (Z * votedata) }.
+
+Definition otrack_tx (h p : Z) (ot : otrack) (m : omsg) : otrack * list Z :=
+  match m with
+  | MPrevote _ val commit rid =>
+      (mkOT (zinsert val commit (ot_prevotes ot)) (ot_votes ot),
+       if (rid =? rstart h p) && (h <=? prevote_end h p) then [] else [73])
+  | MVote _ val vd salt rid =>
+      (mkOT (zremove val (ot_prevotes ot)) (zinsert val vd (ot_votes ot)),
+       if (rid =? rstart h p) &&
+          match zlookup val (ot_prevotes ot) with Some c => bytes_eqb c (preimage salt vd) | None => false end
+       then [] else [74])
+  | MConsent _ _ => (ot, [])
+  end.
+
+Definition vals_at_end (prev : snap) (blk : list event) (pr : oparams) : ostate :=
+  let o0 := mkO pr None [] [] [] [] (sn_vals prev) [] [] in
+  let envs := concat (map (fun e => match e with EvBegin es => es | _ => [] end) blk) in
+  staking_end (fold_left (fun o e => match e with EO x => apply_oenv o x | _ => o end) envs o0).
+
+Definition recips_eqb (a b : list recipient) : bool := list_eqb recip_eqb a b.
+
+Definition chk_tally (pr : oparams) (ot : otrack) (prev : snap) (blk : list event) (blko : list iobs) (sn : snap) : list Z :=
+  let p := op_period pr in
+  let h := sn_h sn in
+  let evs := end_events_of blko in
+  let filled := filter (fun e : iev => fst (fst e) =? 5) evs in
+  let cancelled := tx_events_of blko in
+  (* never overwritten *)
+  (if forallb (fun x : Z * Z * utxr =>
+        match u_recips (snd x), utxr_get (s_utxrs (sn_s sn)) (fst (fst x)) (snd (fst x)) with
+        | _ :: _, Some rc => recips_eqb (u_recips rc) (u_recips (snd x))
+        | _, _ => true
+        end) (s_utxrs (sn_s prev)) then [] else [64])
+  ++
+  if is_tally h p && negb (rstart h p =? 0) then
+    let o := vals_at_end prev blk pr in
+    let ob := set_votes o (ot_votes ot) in
+    let res := tally_results (claims ob) (all_ballots ob) (threshold_votes ob) in
+    let eligible := filter (fun x : Z * Z * utxr =>
+          match u_recips (snd x) with
+          | [] => (u_created (snd x) <? rstart h p)
+                  && negb (existsb (fun e : iev => (fst (fst e) =? 2) && (snd (fst e) =? fst (fst x)) && (snd e =? snd (fst x))) cancelled)
+                  && match fill_get res (u_nft (snd x)) with Some _ => true | None => false end
+          | _ => false
+          end) (s_utxrs (sn_s prev)) in
+    (if list_eqb iev_eqb filled (map (fun x : Z * Z * utxr => (5, fst (fst x), snd (fst x))) eligible) then [] else [61])
+    ++ (if forallb (fun x : Z * Z * utxr =>
+            match utxr_get (s_utxrs (sn_s sn)) (fst (fst x)) (snd (fst x)), fill_get res (u_nft (snd x)) with
+            | Some rc, Some ow => recips_eqb (u_recips rc) [mkRecip ow 1]
+            | _, _ => true
+            end) eligible then [] else [62])
+  else
+    match filled with [] => [] | _ => [63] end.
+
+Definition chk_round (pr : oparams) (sn : snap) : list Z :=
+  let p := op_period pr in
+  let h := sn_h sn in
+  (if is_tally h p then
+     match sn_prevotes sn, sn_votes sn with [], [] => [] | _, _ => [71] end
+   else [])
+  ++ match sn_round sn with
+     | Some (id, pe, ve, _) =>
+         if (id =? rstart (h + 1) p) && (pe =? prevote_end (h + 1) p) && (ve =? vote_end (h + 1) p) then [] else [72]
+     | None => [72]
+     end.
+
+Definition chk_books (sn : snap) : list Z :=
+  (if sn_inv sn then [] else [90])
+  ++ (if forallb (fun c : bytes * Z =>
+          snd c =? sumZ (map (fun x : Z * bytes * Z => if bytes_eqb (snd (fst x)) (fst c) then snd x else 0) (sn_owed_val sn))
+                   + coin_get (sn_owed_comm sn) (fst c)) (sn_owed sn)
+         && forallb (fun x : Z * bytes * Z =>
+              existsb (fun c : bytes * Z => bytes_eqb (fst c) (snd (fst x))) (sn_owed sn) || (snd x =? 0)) (sn_owed_val sn)
+      then [] else [91])
+  ++ (if forallb (fun c : bytes * Z => snd c mod prec =? 0) (sn_owed sn) then [] else [92]).
+
+Fixpoint oracle_walk (pr : oparams) (k : Z) (h : Z) (ot : otrack) (prev : snap) (blk : list event) (blko : list iobs)
+                     (es : list event) (os : list iobs) : list (Z * Z) :=
+  match es, os with
+  | e :: es', o :: os' =>
+      match e, o with
+      | EvBegin _, _ => oracle_walk pr (k + 1) (h + 1) ot prev (blk ++ [e]) (blko ++ [o]) es' os'
+      | EvOTx m, ITx COk _ =>
+          let '(ot', errs) := otrack_tx h (op_period pr) ot m in
+          map (fun c => (k, c)) errs ++ oracle_walk pr (k + 1) h ot' prev (blk ++ [e]) (blko ++ [o]) es' os'
+      | EvEnd _, IEnd _ _ (Some sn) =>
+          map (fun c => (k, c)) (chk_tally pr ot prev (blk ++ [e]) (blko ++ [o]) sn ++ chk_round pr sn ++ chk_books sn)
+          ++ oracle_walk pr (k + 1) h (if is_tally h (op_period pr) then mkOT [] [] else ot) sn [] [] es' os'
+      | _, _ => oracle_walk pr (k + 1) h ot prev (blk ++ [e]) (blko ++ [o]) es' os'
+      end
+  | _, _ => []
+  end.
+
+Definition oracle_check (c : case) : list (Z * Z) :=
+  oracle_walk (o_params (c_o (cs_init c))) 0 (c_h (cs_init c)) (mkOT [] []) (snap_of_init (cs_init c)) [] []
+              (cs_events c) (cs_obs c).
+
+Definition check_oracle := failing oracle_check.
+Definition check_C05 := failing (fun c => codes_in 61 62 (oracle_check c)).
+Definition check_C10 := failing (fun c => codes_in 61 64 (oracle_check c)).
+Definition check_C08 := failing (fun c => codes_in 71 79 (oracle_check c)).
+Definition check_C14 := failing (fun c => codes_in 90 99 (oracle_check c)).
